@@ -7,6 +7,11 @@ import (
 	"reflect"
 	"strings"
 
+	"github.com/wormhole-foundation/example-near-light-client/fri"
+	gl "github.com/wormhole-foundation/example-near-light-client/goldilocks"
+	"github.com/wormhole-foundation/example-near-light-client/types"
+	"github.com/wormhole-foundation/example-near-light-client/variables"
+
 	"verifharness/data"
 	"verifharness/drv"
 	"verifharness/engine"
@@ -188,6 +193,7 @@ func c20(raw json.RawMessage, resp *drv.Response) error {
 	}
 	inst := data.ByName(req.Instance)
 	rng := drv.Rng(int64(2000 + req.Shard))
+	c20Schedules(resp)
 	// the process has verified the unaltered proof before it meets the altered ones (what a long-running prover service has done):
 	// nothing remembered from that run may stand in for the shape checks of a later proof
 	if out, msg := runShape(data.Load(inst, req.K), req.Wrapper); out != "accept" && !(req.Wrapper == "fixed" && out == "refuse") {
@@ -315,4 +321,56 @@ func c20(raw json.RawMessage, resp *drv.Response) error {
 		}
 	}
 	return nil
+}
+
+
+// c20Schedules: descriptions whose FRI reduction schedule is not constant (the repository's is [4,4]).  Shape.tla prescribes for fold step i a
+// Merkle path of lde_bits - (a_0 + .. + a_i) - cap_height siblings; the code's shape validation must accept exactly that length.
+func c20Schedules(resp *drv.Response) {
+	for _, sched := range [][]uint64{{4, 3}, {1, 4, 2}, {3, 1}, {2, 2, 2}, {5}, {}} {
+		params := &types.FriParams{DegreeBits: 9, ReductionArityBits: sched}
+		params.Config.RateBits, params.Config.CapHeight = 3, 1
+		lde, sum := 12, 0
+		want := []int{}
+		for _, a := range sched {
+			sum += int(a)
+			want = append(want, lde-sum-1)
+		}
+		mk := func(lens []int) *variables.FriProof {
+			steps := []variables.FriQueryStep{}
+			for i, a := range sched {
+				steps = append(steps, variables.NewFriQueryStep(a, uint64(lens[i])))
+			}
+			ev := variables.NewFriEvalProof(make([]gl.Variable, 3), variables.NewFriMerkleProof(uint64(lde-1)))
+			qr := variables.NewFriQueryRound(steps, variables.NewFriInitialTreeProof([]variables.FriEvalProof{ev}))
+			return &variables.FriProof{QueryRoundProofs: []variables.FriQueryRound{qr}, FinalPoly: variables.NewPolynomialCoeffs(uint64(params.FinalPolyLen()))}
+		}
+		inst := fri.InstanceInfo{Oracles: []fri.OracleInfo{{NumPolys: 3}}}
+		try := func(lens []int) (ok bool) {
+			defer func() {
+				if recover() != nil {
+					ok = false
+				}
+			}()
+			fri.VerifValidateFriProofShape(mk(lens), inst, params)
+			return true
+		}
+		resp.Count(fmt.Sprintf("schedule/%v/prescribed", sched), false)
+		if !try(want) {
+			resp.Violate("c20/schedule/refused-prescribed", fmt.Sprintf("reduction schedule %v: step paths of the prescribed lengths %v are refused by the shape validation", sched, want), nil)
+		}
+		for i := range want {
+			for _, d := range []int{-1, 1, 2} {
+				l := append([]int{}, want...)
+				l[i] += d
+				if l[i] < 0 {
+					continue
+				}
+				resp.Count(fmt.Sprintf("schedule/%v/%d/%d", sched, i, d), true)
+				if try(l) {
+					resp.Violate("c20/schedule/accepted", fmt.Sprintf("reduction schedule %v: step %d with a path of %d siblings instead of %d passes the shape validation", sched, i, l[i], want[i]), nil)
+				}
+			}
+		}
+	}
 }
